@@ -9,7 +9,7 @@ compared with the original messages.
 from __future__ import annotations
 
 from . import codec, reference, wire
-from .absint import AbsInt, AList, AObj, LenV, Opaque, SeqVar, Outcome, _Brk, _Cont
+from .absint import AbsInt, AList, AObj, LenV, Opaque, SeqVar, Outcome, _Brk, _Cont, assuming, only_length_splits
 from .bits import AV, Sym
 from .model import AnalysisError, Unsupported
 from .wire import AFile, Field, StrSym, VLQ
@@ -304,14 +304,25 @@ def check_scenario(ctx, ai, name, events, rules, expect_write_error=None, confor
                     f'the rejected track had already reached the file: {describe(partial[0].file.written) if partial else ""} '
                     '(a rejected message leaves a partial track behind)', construct=f'{wt.qname}::writes-before-validation')
         return None
-    if len(outs) != 1 or outs[0].kind != 'return':
+    if not only_length_splits(outs):
         why = f'writing {events!r} does not complete on exactly one path: {outs}'
         if any(o.decisions for o in outs):
             why += ' (undecided: ' + '; '.join(d[2] for o in outs for d in o.decisions)[:200] + ')'
         ctx.fail(rules['write'], f'{inst}.write', w, why, construct=cons + '::write')
         return None
     ctx.ok(rules['write'], f'{inst}.write', w)
-    written = outs[0].value.written
+    first = None
+    for o_w in outs:
+        # (several outcomes: short payload / long payload, each judged under the bounds of its path)
+        with assuming(o_w):
+            r_ = _judge_written(ctx, ai, name, events, rules, o_w, wt, w, inst, cons, conformance, roundtrip)
+        if first is None:
+            first = r_
+    return first
+
+
+def _judge_written(ctx, ai, name, events, rules, o_w, wt, w, inst, cons, conformance, roundtrip):
+    written = o_w.value.written
     if len(written) < 2 or not isinstance(written[0], Field) or written[0].value != b'MTrk' \
             or not isinstance(written[1], Field) or written[1].code != 'L' or written[1].order != '>':
         ctx.fail(rules['size'], f'{inst}.chunk-header', w, f'track does not start with MTrk + big endian 32 bit length: {describe(written[:3])}',
@@ -445,6 +456,25 @@ def _first_loop(fn_node, kinds):
     return None
 
 
+def _bind_hoisted(ai, fn, loop, env):
+    """Names bound in front of the loop to an attribute of something the step already knows (read = infile.read,
+    append = track.append) or to another such name: the step sees them as the loop body does."""
+    import ast
+    for st in fn.node.body:
+        if st is loop:
+            break
+        if isinstance(st, ast.Assign) and len(st.targets) == 1 and isinstance(st.targets[0], ast.Name) and st.targets[0].id not in env:
+            v = st.value
+            root = v
+            while isinstance(root, ast.Attribute):
+                root = root.value
+            if isinstance(v, (ast.Attribute, ast.Name)) and isinstance(root, ast.Name) and (root.id in env or isinstance(v, ast.Attribute)):
+                try:
+                    env[st.targets[0].id] = ai.ev(v, env, fn.module)
+                except Exception:       # noqa: BLE001 - not a plain alias after all: the loop body will say so
+                    pass
+
+
 def writer_step(ctx, ai, ev, running):
     """Interpret ONE iteration of write_track's message loop: -> list of (emitted items, running status afterwards) outcomes."""
     import ast
@@ -464,6 +494,7 @@ def writer_step(ctx, ai, ev, running):
 
     def thunk():
         env = {loop.target.id: ev.build(ai, ctx), dn: AList([], 'bytearray'), rn: running, wt.params()[0]: AFile(name='out'), wt.params()[1]: AList([], 'MidiTrack')}
+        _bind_hoisted(ai, wt, loop, env)
         try:
             ai.ex_block(loop.body, env, wt.module)
         except (_Cont, _Brk):
@@ -492,6 +523,7 @@ def reader_step(ctx, ai, items, last_status):
         env = {rt.params()[0]: f, ln: last_status, tn: AList([], 'MidiTrack'), 'start': 0, 'size': 10 ** 9, 'debug': False, 'clip': False, 'name': b'MTrk'}
         for p_, d_ in zip(rt.params()[1:], (False, False)):
             env[p_] = d_
+        _bind_hoisted(ai, rt, loop, env)
         try:
             ai.ex_block(loop.body, env, rt.module)
         except (_Cont, _Brk):
@@ -543,63 +575,65 @@ def inductive_agreement(ctx, ai, rule_w, rule_r):
             w = ctx.where(wt)
             inst = f'step[{label}, running={pname}]'
             cons = f'{wt.qname}::step::{label if st is None else "channel"}::{pname}'
-            if len(outs) != 1 or outs[0].kind != 'return':
+            if not only_length_splits(outs):
                 ctx.fail(rule_w, inst + '.write', w, f'one writer step does not complete on one path: {outs}', construct=cons + '::outcomes')
                 continue
-            items, post = outs[0].value
-            # reference
-            want = [VLQ(ev.time)]
-            if ev.kind == 'meta':
-                P = ref_meta_payload(ev.type, ev.attrs)
-                want += [0xff, reference.META_SPECS[ev.type][0], VLQ(wire.size_of(P))] + P
-                wpost = None
-            elif ev.kind == 'unknown_meta':
-                P = list(ev.attrs['data'].items)
-                want += [0xff, ev.type_byte, VLQ(wire.size_of(P))] + P
-                wpost = None
-            elif ev.type == 'sysex':
-                D = list(ev.attrs['data'].items)
-                want += [0xf0, VLQ(_plus1(wire.size_of(D)))] + D + [0xf7]
-                wpost = None
-            else:
-                s2, data = ref_message_bytes(ev.type, ev.attrs)
-                omit = running is not None and wire.value_equal(s2, running)
-                want += ([] if omit else [s2]) + data
-                wpost = s2 if st is not None else None
-            ctx.require(wire.items_equal(items, want), rule_w, inst + '.bytes', w,
-                        f'writes {describe(items)}; SMF: {describe(want)}', construct=cons + '::bytes')
-            ctx.require((post is None and wpost is None) or (post is not None and wpost is not None and wire.value_equal(post, wpost)), rule_w,
-                        inst + '.running-status', w, f'running status afterwards is {post!r}, must be {wpost!r}', construct=cons + '::post')
-            # reader pre-states consistent with the invariant
-            if pname == 'same':
-                rpres = [('same', running)]
-            else:
-                rpres = [('none', None), ('other', other), ('sysex', 0xf0), ('common', 0xf3)] if pname == 'none' else [('other', other)]
-            for rname, last in rpres:
-                if skipped['reader']:
-                    break
-                try:
-                    rt, routs = reader_step(ctx, ai, want, last)
-                except ShapeNotApplicable as e:
-                    skipped['reader'] = str(e)
-                    ctx.notes.append(f'{rule_r}: one-step rule not applicable ({e}); decided by the whole-track scenarios only')
-                    break
-                wr = ctx.where(rt)
-                rinst = f'step[{label}, running={pname}, reader last_status={rname}]'
-                rcons = f'{rt.qname}::step::{label if st is None else "channel"}::{pname}/{rname}'
-                if len(routs) != 1 or routs[0].kind != 'return':
-                    ctx.fail(rule_r, rinst + '.read', wr, f'one reader step does not complete on one path: {routs}', construct=rcons + '::outcomes')
-                    continue
-                tr, rpost, f = routs[0].value
-                ok = isinstance(tr, AList) and len(tr.items) == 1
-                why = f'reader step produced {tr!r}'
-                if ok:
-                    ok, why = same_message(ev, tr.items[0], ctx)
-                ctx.require(ok and f.pos == len(want) and not f.bad, rule_r, rinst + '.event', wr,
-                            f'{why}; consumed {f.pos} of {len(want)} items {f.bad}', construct=rcons + '::event')
-                if wpost is not None:
-                    ctx.require(rpost is not None and wire.value_equal(rpost, wpost), rule_r, rinst + '.invariant', wr,
-                                f'writer keeps running status {wpost!r} but the reader remembers {rpost!r}', construct=rcons + '::invariant')
+            for o_w in outs:
+              with assuming(o_w):
+                items, post = o_w.value
+                # reference
+                want = [VLQ(ev.time)]
+                if ev.kind == 'meta':
+                    P = ref_meta_payload(ev.type, ev.attrs)
+                    want += [0xff, reference.META_SPECS[ev.type][0], VLQ(wire.size_of(P))] + P
+                    wpost = None
+                elif ev.kind == 'unknown_meta':
+                    P = list(ev.attrs['data'].items)
+                    want += [0xff, ev.type_byte, VLQ(wire.size_of(P))] + P
+                    wpost = None
+                elif ev.type == 'sysex':
+                    D = list(ev.attrs['data'].items)
+                    want += [0xf0, VLQ(_plus1(wire.size_of(D)))] + D + [0xf7]
+                    wpost = None
+                else:
+                    s2, data = ref_message_bytes(ev.type, ev.attrs)
+                    omit = running is not None and wire.value_equal(s2, running)
+                    want += ([] if omit else [s2]) + data
+                    wpost = s2 if st is not None else None
+                ctx.require(wire.items_equal(items, want), rule_w, inst + '.bytes', w,
+                            f'writes {describe(items)}; SMF: {describe(want)}', construct=cons + '::bytes')
+                ctx.require((post is None and wpost is None) or (post is not None and wpost is not None and wire.value_equal(post, wpost)), rule_w,
+                            inst + '.running-status', w, f'running status afterwards is {post!r}, must be {wpost!r}', construct=cons + '::post')
+                # reader pre-states consistent with the invariant
+                if pname == 'same':
+                    rpres = [('same', running)]
+                else:
+                    rpres = [('none', None), ('other', other), ('sysex', 0xf0), ('common', 0xf3)] if pname == 'none' else [('other', other)]
+                for rname, last in rpres:
+                    if skipped['reader']:
+                        break
+                    try:
+                        rt, routs = reader_step(ctx, ai, want, last)
+                    except ShapeNotApplicable as e:
+                        skipped['reader'] = str(e)
+                        ctx.notes.append(f'{rule_r}: one-step rule not applicable ({e}); decided by the whole-track scenarios only')
+                        break
+                    wr = ctx.where(rt)
+                    rinst = f'step[{label}, running={pname}, reader last_status={rname}]'
+                    rcons = f'{rt.qname}::step::{label if st is None else "channel"}::{pname}/{rname}'
+                    if len(routs) != 1 or routs[0].kind != 'return':
+                        ctx.fail(rule_r, rinst + '.read', wr, f'one reader step does not complete on one path: {routs}', construct=rcons + '::outcomes')
+                        continue
+                    tr, rpost, f = routs[0].value
+                    ok = isinstance(tr, AList) and len(tr.items) == 1
+                    why = f'reader step produced {tr!r}'
+                    if ok:
+                        ok, why = same_message(ev, tr.items[0], ctx)
+                    ctx.require(ok and f.pos == len(want) and not f.bad, rule_r, rinst + '.event', wr,
+                                f'{why}; consumed {f.pos} of {len(want)} items {f.bad}', construct=rcons + '::event')
+                    if wpost is not None:
+                        ctx.require(rpost is not None and wire.value_equal(rpost, wpost), rule_r, rinst + '.invariant', wr,
+                                    f'writer keeps running status {wpost!r} but the reader remembers {rpost!r}', construct=rcons + '::invariant')
     if not skipped['writer']:
         ctx.floor(rule_w + '-steps', n, 40)
     ctx.extra.setdefault('one_step_rules', {}).update({rule_w: skipped['writer'] or 'applied', rule_r: skipped['reader'] or 'applied'})
